@@ -372,6 +372,140 @@ def run_program_jobs(routes, jobs):
 
 
 # ------------------------------------------------------------------------------------------------
+# registries: guarded registration, isolation oracle
+# ------------------------------------------------------------------------------------------------
+
+class IsoVec:
+    """A user type every substituted builtin can be called on."""
+
+    def __init__(self):
+        self.items, self.n = [3, -1, 2], 0
+
+    def __abs__(self):
+        return 6.5
+
+    def __len__(self):
+        return 3
+
+    def __iter__(self):
+        return iter(self.items)
+
+    def __next__(self):
+        self.n += 1
+        return self.n
+
+    def __float__(self):
+        return 1.5
+
+    def __int__(self):
+        return 4
+
+    def __index__(self):
+        return 4
+
+    def __repr__(self):
+        return 'IsoVec'
+
+
+# how each builtin is called on an IsoVec `v` (aux = a StringIO for print)
+ISO_EXPR = {'abs': 'abs(v)', 'all': 'all(v)', 'any': 'any(v)', 'enumerate': 'enumerate(v, 1)', 'filter': 'filter(None, v)',
+            'float': 'float(v)', 'int': 'int(v)', 'len': 'len(v)', 'map': 'map(str, v)', 'print': "print(v, 'x', sep='-', file=aux)",
+            'range': 'range(v)', 'sorted': 'sorted(v, reverse=True)', 'zip': 'zip(v, v)', 'next': 'next(v)'}
+
+
+def all_registries(pb):
+    """Every TypeRegistry instance reachable as a module attribute of py_builtins / control_flow."""
+    from malt.utils import type_registry
+    out = []
+    mods = [pb]
+    try:
+        from malt.operators import control_flow
+        mods.append(control_flow)
+    except Exception:  # noqa
+        pass
+    for m in mods:
+        for n, v in sorted(vars(m).items()):
+            if isinstance(v, type_registry.TypeRegistry):
+                out.append((m.__name__.split('.')[-1] + '.' + n, v))
+    return out
+
+
+class Registered:
+    """Register (type -> override) in the given registries; whatever the implementation raises is kept in
+    `self.errors` (never propagated); state is restored on exit whatever happened."""
+
+    def __init__(self, regs, entries):
+        self.regs, self.entries, self.errors = regs, entries, []
+
+    def __enter__(self):
+        for rname, reg in self.regs:
+            for typ, override in self.entries:
+                try:
+                    reg.register(typ, override)
+                except Exception as e:  # noqa
+                    self.errors.append({'registry': rname, 'type': typ.__name__, 'raised': '%s: %s' % (type(e).__name__, str(e)[:120])})
+        return self
+
+    def __exit__(self, *a):
+        for _, reg in all_registries_cache:
+            d = getattr(reg, '_registry', None)
+            if isinstance(d, dict):
+                for typ, _ in self.entries:
+                    d.pop(typ, None)
+
+
+all_registries_cache = []
+
+
+def iso_substitute(routes, b, via):
+    """The substitute of `b` called as ISO_EXPR[b] on (v, aux)."""
+    pb = routes.pb
+    f = getattr(builtins, b)
+    if via == 'converted_function':
+        key = ('iso', b)
+        if key not in routes.conv_cache:
+            mod = routes.load_module('def iso_%s(v, aux):\n    return %s\n' % (b, ISO_EXPR[b]))
+            routes.conv_cache[key] = routes.malt.to_graph(getattr(mod, 'iso_' + b), recursive=True,
+                                                          experimental_optional_features=routes.converter.Feature.BUILTIN_FUNCTIONS)
+        return routes.conv_cache[key]
+    sub = (lambda *a, **k: pb.overload_of(f)(*a, **k)) if via == 'overload_of' else (lambda *a, **k: pb.BUILTIN_FUNCTIONS_MAP[b](*a, **k))
+    return eval('lambda v, aux: ' + ISO_EXPR[b], {b: sub, 'str': str})
+
+
+def isolation_case(routes, case):
+    """Register an override for IsoVec in ONE registry, call the substitute of `case['builtin']` on an IsoVec.
+    Expected: the override's result iff that registry is the builtin's own, otherwise exactly what the builtin does."""
+    pb = routes.pb
+    global all_registries_cache
+    all_registries_cache = all_registries(pb)
+    regs = dict(all_registries_cache)
+    rname, b, via = case['registry'], case['builtin'], case['via']
+    MARK = ('override-of', rname)
+
+    def override(*a, **k):
+        return MARK
+    own = rname == 'py_builtins.%s_registry' % b
+
+    def run_it(fn):
+        ctx = V.Ctx()
+        aux = io.StringIO()
+        ctx.files.append(aux)
+        return V.observe(fn, [IsoVec(), aux], {}, ctx)
+    want = run_it(eval('lambda v, aux: ' + ISO_EXPR[b]))
+    with Registered([(rname, regs[rname])], [(IsoVec, override)]) as r:
+        got = run_it(iso_substitute(routes, b, via))
+        errs = list(r.errors)
+    if errs:
+        return True, 'registering a type in %s raised' % rname, {'registration': errs}
+    if own:
+        ok = got['outcome'] == ('value', V.canon(MARK))
+        return (not ok), 'an override registered in %s is not used by %s' % (rname, b), {'substitute_did': V.tr_json(got)}
+    diff = compare_traces(want, got)
+    return diff is not None, 'an override registered in %s leaks into the substitute of %s (differs in %s)' % (rname, b, diff), \
+        {'builtin_did': V.tr_json(want), 'substitute_did': V.tr_json(got)}
+
+
+# ------------------------------------------------------------------------------------------------
 # correspondence helpers
 # ------------------------------------------------------------------------------------------------
 
@@ -554,6 +688,9 @@ def replay_case(routes, case):
     if case['kind'] == 'program':
         what, det, _ = program_case(routes, case['program'], case['feature'])
         return what is not None, what, class_of_program(case['program']), det
+    if case['kind'] == 'isolation':
+        failed, what, det = isolation_case(routes, case)
+        return failed, what, None, det
     raise common.InfraError('unknown case kind %r' % case.get('kind'))
 
 
@@ -735,6 +872,37 @@ def _check(run, routes, only_case):
             fail('converted_call(%s, ...) differs from %s(...)' % (n, n),
                  {'kind': 'identity', 'builtin': n, 'builtin_did': want, 'converted_call_did': got}, None)
 
+    # registries: pairwise distinct objects with independent contents, and an override registered in one registry
+    # reaches exactly that registry's builtin (every ordered pair registry x substituted builtin, three routes)
+    global all_registries_cache
+    all_registries_cache = all_registries(pb)
+    regs = all_registries_cache
+    for i, (n1, r1) in enumerate(regs):
+        for n2, r2 in regs[i + 1:]:
+            run.case(('registry-distinct', n1, n2), True)
+            d1, d2 = getattr(r1, '_registry', None), getattr(r2, '_registry', None)
+            if r1 is r2 or (d1 is not None and d1 is d2):
+                fail('registries %s and %s share their contents' % (n1, n2), {'kind': 'registry-distinct', 'a': n1, 'b': n2}, None)
+    iso_builtins = [b for b in list(dict.fromkeys(supported + list(pb.BUILTIN_FUNCTIONS_MAP))) if b in ISO_EXPR]
+    missing_iso = [b for b in dict.fromkeys(supported + list(pb.BUILTIN_FUNCTIONS_MAP)) if b not in ISO_EXPR]
+    if missing_iso:
+        fail('the isolation oracle has no call for %s' % missing_iso, {'kind': 'isolation', 'builtins': missing_iso}, None)
+    niso = 0
+    for rname, _ in regs:
+        for b in iso_builtins:
+            vias = ['overload_of', 'converted_function'] if b in supported else ['map_entry']
+            for via in vias:
+                case = {'kind': 'isolation', 'registry': rname, 'builtin': b, 'via': via}
+                try:
+                    failed, what, det = isolation_case(routes, case)
+                except Exception as e:  # noqa   the implementation broke while being driven: that is a failing input
+                    failed, what, det = True, 'driving the isolation case raised %s' % type(e).__name__, {'error': str(e)[:200]}
+                run.case(('isolation', rname, b, via), True)
+                niso += 1
+                if failed:
+                    fail(what, dict(case, observed=det), None)
+    run.cov['isolation_cases (registry x builtin x route)'] = niso
+    run.cov['registries_checked'] = [n for n, _ in regs]
     t_sec['direct'] = time.time()
     # ---------------- 2. frame-sensitive builtins in converted functions ----------------
     progs, pstat = P.frame_programs(run.tier, rng)
@@ -1010,9 +1178,12 @@ def _check(run, routes, only_case):
     reg_objs = [getattr(pb, n) for n in tables[4] if getattr(pb, n, None) is not None]
     lines, expect, staged_shapes = [], [], []
     saved = {}
+    reg_named = [(n, getattr(pb, n)) for n in tables[4] if getattr(pb, n, None) is not None]
+    guard = Registered(reg_named, [(SA, mkoverride(1)), (SB, mkoverride(2))])
     try:
-        for r in reg_objs:
-            r.register(SA, mkoverride(1)); r.register(SB, mkoverride(2))
+        guard.__enter__()
+        for e in guard.errors:
+            fail('registering a type in %s raised %s' % (e['registry'], e['raised']), dict(e, kind='registry-register'), None)
         for b in map_keys:
             saved[b] = pb.__dict__.get(b, saved)
             pb.__dict__[b] = mkspy(b)
@@ -1048,13 +1219,13 @@ def _check(run, routes, only_case):
                         expect.append(exp)
                         staged_shapes.append((b, shp))
     finally:
-        for r in reg_objs:
-            r._registry.pop(SA, None); r._registry.pop(SB, None)
+        guard.__exit__()
         for b, v in saved.items():
             if v is saved:
                 pb.__dict__.pop(b, None)
             else:
                 pb.__dict__[b] = v
+    run.oblige('correspondence:registration-succeeds', 'correspondence', not guard.errors, json.dumps(guard.errors[:3]))
     corr('c14.mappedS(registry-dispatch)', lines, expect)
     left = [n for n in tables[4] if getattr(getattr(pb, n, None), '_registry', None) not in ({}, None)]
     run.oblige('correspondence:registries-restored', 'correspondence', not left, 'still filled: %s' % left)
@@ -1202,7 +1373,7 @@ def replay(run, path):
     with open(path) as f:
         rep = json.load(f)
     case = rep.get('case')
-    if not isinstance(case, dict) or case.get('kind') not in ('direct', 'program'):
+    if not isinstance(case, dict) or case.get('kind') not in ('direct', 'program', 'isolation'):
         print(json.dumps(rep, indent=1)[:3000])
         check(run)
         return run.finish()
